@@ -1,6 +1,7 @@
 package eng
 
 import (
+	"bytes"
 	"crypto/sha256"
 	"encoding/json"
 	"fmt"
@@ -285,10 +286,35 @@ func (a *authzRun) matrix(idx int) {
 		if a.right("avs.updateAVS", w.CallFrom("avs.updateAVS", avsA, "avs", sim.AddrAVS, "updateAVS", p, regArgs(owner, "avs2-"+tag, 0)...)) {
 			a.boundTo("avs.updateAVS", avsBefore, avsA)
 		}
+		// a second AVS with another owner (nonOwner), whose address sorts before avsA's: it will try to claim avsA's
+		// task contract by an update; whether or not that is accepted (C20 judges it), nonOwner must not become able to
+		// create tasks from avsA's task contract (the 'avs-contract|non-owner-sender' case below)
+		var avsC *sim.Account
+		for k := 0; k < 64 && avsC == nil; k++ {
+			if c := sim.NewAccount(fmt.Sprintf("authz-avsC-%s-%d", tag, k)); bytes.Compare(c.Eth.Bytes(), avsA.Eth.Bytes()) < 0 {
+				avsC = c
+			}
+		}
+		argsC := func(taskAddr common.Address) []interface{} {
+			return []interface{}{nonOwner.Eth, "avsC-" + tag, uint64(1), taskAddr, common.HexToAddress("0x0000000000000000000000000000000000000902"), common.HexToAddress("0x0000000000000000000000000000000000000903"),
+				[]string{nonOwner.Acc.String()}, []string{lst.ID}, uint64(50), uint64(0), "minute", []uint64{1, 1, 5, 5}}
+		}
+		regC := false
+		if avsC != nil {
+			w.Fund(avsC)
+			regC = w.CallFrom("avs.registerAVS(second)", avsC, "avs", sim.AddrAVS, "registerAVS", p, argsC(avsC.Eth)...).Ack
+		}
 		// task creation needs voting power: an operator with stake opts in and an epoch passes
 		if w.OptIn(op, avsA.Eth.String(), nil).Ack {
+			if regC {
+				w.OptIn(op, avsC.Eth.String(), nil)
+			}
 			for k := 0; k < 9 && !w.Dead; k++ {
 				w.Advance(w.Dt)
+			}
+			if regC {
+				st := w.CallFrom("avs.updateAVS(claim-foreign-task-contract)", avsC, "avs", sim.AddrAVS, "updateAVS", p, argsC(avsA.Eth)...)
+				a.s.Case(fmt.Sprintf("avs.updateAVS|second-avs-claims-task-contract-of-first|ack=%v", st.Ack))
 			}
 			if os.Getenv("VERIF_AUTHZ_DEBUG") != "" {
 				v, err := w.C.App.OperatorKeeper.GetAVSUSDValue(w.C.Ctx(), avsA.Eth.String())
